@@ -13,7 +13,7 @@ import tflsum
 import vlib
 
 FAMS = ["mixed_cpu", "ew_dag", "conv_chain", "diamond", "ew_dag", "single", "mixed_cpu", "lut_heavy", "conv_chain_big", "unsupported",
-        "ew_dag", "multi_custom", "multi_subgraph", "lstm"]
+        "ew_dag", "multi_custom", "multi_subgraph", "lstm", "cpu_fan"]
 ELEM = {"int8": 1, "uint8": 1, "int16": 2, "int32": 4, "float32": 4, "int64": 8, "bool": 1, "float16": 2}
 AREA_COL = {"SRAM": "sram_memory_used", "DRAM": "dram_memory_used", "On-chip Flash": "on_chip_flash_memory_used",
             "Off-chip Flash": "off_chip_flash_memory_used"}
